@@ -190,6 +190,22 @@ impl Scheduler {
         }
     }
 
+    /// true if the local queue of the worker holds coroutines that are ready to run
+    #[inline]
+    #[cfg(all(unix, feature = "io_timeout", not(feature = "work_steal")))]
+    pub fn has_queued_tasks(&self, id: usize) -> bool {
+        let local = unsafe { self.local_queues.get_unchecked(id) };
+        !local.is_empty()
+    }
+
+    /// true if the local queue of the worker holds coroutines that are ready to run
+    #[inline]
+    #[cfg(all(unix, feature = "io_timeout", feature = "work_steal"))]
+    pub fn has_queued_tasks(&self, id: usize) -> bool {
+        let local = unsafe { &*self.local_queues.get_unchecked(id).get() };
+        local.has_tasks()
+    }
+
     /// put the coroutine to correct queue so that next time it can be scheduled
     #[inline]
     pub fn schedule(&self, co: CoroutineImpl) {
